@@ -426,6 +426,10 @@ func (g *G) debugInfo() {
 			sp.Fields = append(sp.Fields, ref(d.tuple(rn)))
 		}
 		f.MD = append(f.MD, &am.Attachment{Kind: "dbg", Node: ref(sp)})
+		// llvm.dbg.value / llvm.dbg.declare calls: metadata operands wrapping local values, variables and expressions
+		if len(rn) > 0 && rn[0].Node.Kind == "DILocalVariable" && !g.off("dbg-intrinsics") {
+			d.dbgIntrinsics(f, rn[0].Node)
+		}
 		// every instruction of the function gets a location (calls must have one)
 		for _, b := range f.Blocks {
 			for _, in := range append(append([]*am.Inst{}, b.Insts...), b.Term) {
@@ -560,6 +564,66 @@ func (g *G) debugInfo() {
 	for _, n := range d.nodes {
 		if n.Kind != "" {
 			g.feat("di/" + n.Kind)
+		}
+	}
+}
+
+// dbgIntrinsics inserts calls to llvm.dbg.value after some value-producing instructions of f.
+func (d *di) dbgIntrinsics(f *am.Fun, lv *am.MDNode) {
+	g := d.g
+	var decl *am.Fun
+	for _, x := range g.M.Funcs {
+		if x.Name == "llvm.dbg.value" {
+			decl = x
+		}
+	}
+	if decl == nil {
+		decl = &am.Fun{Name: "llvm.dbg.value", Ret: am.TVoid, Decl: true, Params: []*am.Param{{T: am.TMD}, {T: am.TMD}, {T: am.TMD}}}
+		g.M.Funcs = append(g.M.Funcs, decl)
+	}
+	for _, b := range f.Blocks {
+		var out []*am.Inst
+		for _, in := range b.Insts {
+			out = append(out, in)
+			if !in.HasValue() || in.Op == "phi" || in.Op == "landingpad" || in.T.K == am.Token || !g.chance("dbgvalue", 1, 4) {
+				continue
+			}
+			// phis must stay grouped at the top: only insert after the last phi
+			call := &am.Inst{Op: "call", T: am.TVoid, FnT: decl.FuncType(),
+				Callee: &am.Value{K: am.VConst, C: &am.Const{K: am.CGlobal, T: decl.PtrType(), Ref: decl}},
+				Args: []*am.Value{
+					{K: am.VMetadata, MD: &am.MDField{K: am.MDLocalValue, Local: &am.Value{K: am.VInst, I: in}}},
+					{K: am.VMetadata, MD: ref(lv)},
+					{K: am.VMetadata, MD: &am.MDField{K: am.MDInline, Node: d.exprNoFragment()}},
+				}}
+			call.ArgAttrs = make([][]string, 3)
+			out = append(out, call)
+			g.feat("di/llvm.dbg.value")
+		}
+		// keep phis (and a landingpad) first
+		var phis, rest []*am.Inst
+		seenNonPhi := false
+		for _, in := range out {
+			if !seenNonPhi && (in.Op == "phi" || in.Op == "landingpad") {
+				phis = append(phis, in)
+				continue
+			}
+			if in.Op == "phi" || in.Op == "landingpad" {
+				phis = append(phis, in)
+				continue
+			}
+			seenNonPhi = true
+			rest = append(rest, in)
+		}
+		b.Insts = append(phis, rest...)
+	}
+}
+
+func (d *di) exprNoFragment() *am.MDNode {
+	for {
+		e := d.expr()
+		if len(e.Fields) == 0 || e.Fields[0].Str != "DW_OP_LLVM_fragment" {
+			return e
 		}
 	}
 }
